@@ -230,6 +230,23 @@ def gen_wave(draw, tier="quick"):
     return case
 
 
+@st.composite
+def gen_wave_cdf(draw, tier="quick"):
+    """sampling='inversion' where the model ships a radial cdf but no ppf (3-D Gaussian / Exponential): scipy inverts the cdf numerically."""
+    cls = draw(st.sampled_from(["Gaussian", "Exponential"]))
+    spec = {
+        "cls": cls, "dim": 3, "var": 1.0, "len_scale": draw(st.one_of(st.just(1.0), logfloat(0.2, 5.0))), "nugget": 0.0,
+        "rescale": draw(st.one_of(st.none(), logfloat(0.5, 2.0))), "anis": [1.0, 1.0], "angles": [0.0, 0.0, 0.0], "opt": {},
+    }
+    return {
+        "spec": spec, "sampling": "inversion", "mode_no": 100,
+        "seed": draw(st.integers(0, 2**31 - 1)), "seed2": draw(st.integers(0, 2**31 - 1)),
+        "pooled": 3000 if tier == "quick" else 8000,
+        "lags": draw(st.lists(logfloat(0.05, 5.0), min_size=3, max_size=5)),
+        "dir": draw(st.lists(st.floats(-1, 1), min_size=3, max_size=3)),
+    }
+
+
 def _radial_cdf(model, dim, grid):
     """Independent cdf of |k|: cumulative trapezoid of surface factor * spectral density."""
     s = np.abs(model.spectral_density(grid))
@@ -329,7 +346,7 @@ def _u_values():
 
 @st.composite
 def gen_ppf(draw, tier="quick"):
-    cls, dim = draw(st.sampled_from(sorted(PPF)))
+    cls, dim = draw(st.sampled_from(sorted(PPF) + [("Exponential", 3), ("Gaussian", 3)]))
     spec = {
         "cls": cls, "dim": dim, "var": draw(logfloat(0.1, 10.0)), "len_scale": draw(st.one_of(st.just(1.0), logfloat(1e-3, 1e3))), "nugget": 0.0,
         "rescale": draw(st.one_of(st.none(), logfloat(0.1, 10.0))), "anis": [draw(logfloat(0.1, 10.0)) for _ in range(dim - 1)],
@@ -346,9 +363,15 @@ def _ref_radial_cdf(cls, dim, x):
     if cls == "Gaussian":
         if dim == 1:
             return mp.erf(x / 2), mp.erfc(x / 2)
-        return -mp.expm1(-((x / 2) ** 2)), mp.exp(-((x / 2) ** 2))
+        if dim == 2:
+            return -mp.expm1(-((x / 2) ** 2)), mp.exp(-((x / 2) ** 2))
+        t = x / mp.sqrt(mp.pi) * mp.exp(-((x / 2) ** 2))
+        return mp.erf(x / 2) - t, mp.erfc(x / 2) + t
     if dim == 1:
         return 2 / mp.pi * mp.atan(x), 2 / mp.pi * mp.atan(1 / x) if x > 0 else mp.mpf(1)
+    if dim == 3:
+        t = x / (1 + x * x)
+        return 2 / mp.pi * (mp.atan(x) - t), (2 / mp.pi * (mp.atan(1 / x) + t)) if x > 0 else mp.mpf(1)
     q = 1 / mp.sqrt(1 + x * x)
     return 1 - q, q
 
@@ -360,6 +383,21 @@ def check_ppf(case, rec):
     rec.label(cls, f"dim{dim}", "ppf_law")
     model = lib(build_model, spec, _tags=tags)
     u = np.array(case["u"], dtype=float)
+    ls = float(model.len_rescaled)
+    # the shipped radial cdf (used by sampling='inversion' where there is no ppf) against the closed form, at radii over many decades
+    xs = np.concatenate([u / (1.0 - u), [1e-6, 1e-3, 0.1, 1.0, 3.0, 30.0, 1e3]])
+    with quiet():
+        F_lib = np.asarray(lib(model.spectral_rad_cdf, xs / ls, _what="spectral_rad_cdf", _tags=tags), dtype=float)
+    for x, f in zip(xs, F_lib):
+        F, Fc = _ref_radial_cdf(cls, dim, x)
+        e = float(min(abs(F - f), abs(Fc - (1 - f)) if f > 0.5 else abs(F - f)))
+        rec.discrepancy("cdf_law", e, 1e-12 + 4e-16 * x)
+        if e > 1e-12 + 4e-16 * x:
+            raise Violation(f"{cls} dim {dim}: spectral_rad_cdf({x / ls!r}) = {f!r}, closed form {float(F)!r} (x = k len = {x:.6g})", dict(tags, kind="cdf_law"))
+    if (cls, dim) not in PPF:
+        rec.label("cdf_only")
+        rec.nontrivial(True)
+        return
     with quiet():
         k = np.asarray(lib(model.spectral_rad_ppf, u, _what="spectral_rad_ppf", _tags=tags), dtype=float)
         k1 = np.array([float(model.spectral_rad_ppf(float(v))) for v in u])
@@ -370,7 +408,6 @@ def check_ppf(case, rec):
                         f"({cls}, dim {dim}; rng.random() can return this probability)", dict(tags, kind="ppf_nonfinite"))
     require(bool(np.all(k == k1)), "spectral_rad_ppf differs between scalar and array calls", tags)
     # law of ppf(U): F(ppf(u)) must be u (increasing inverse) or 1 - u (decreasing inverse; equally valid for U uniform) throughout
-    ls = float(model.len_rescaled)
     inc = dec = 0.0
     for ui, ki in zip(u, k):
         F, Fc = _ref_radial_cdf(cls, dim, ki * ls)
@@ -764,6 +801,7 @@ def check_k1(case, rec):
 SUBS = [
     Sub("amp_law", gen_amp, check_amp, quick=16, thorough=120, shards_quick=2, shards_thorough=4, shrink_quick=False),
     Sub("wave_law", gen_wave, check_wave, quick=60, thorough=1200, shards_quick=5, shards_thorough=8, shrink_quick=False, budget_quick=150),
+    Sub("wave_law_cdf_inversion", gen_wave_cdf, check_wave, quick=12, thorough=60, shards_quick=3, shards_thorough=6, shrink_quick=False),
     Sub("ppf_law", gen_ppf, check_ppf, quick=1600, thorough=40000, shards_quick=2, shards_thorough=4),
     Sub("mode_scaling", gen_scaling, check_scaling, quick=16, thorough=300, shards_quick=2, shards_thorough=4, shrink_quick=False, budget_quick=150),
     Sub("srf_ensemble", gen_ensemble, check_ensemble, quick=60, thorough=1200, shards_quick=4, shards_thorough=8, shrink_quick=False, budget_quick=150),
